@@ -16,7 +16,7 @@ from .. import core, reports, shell
 
 TEX = 'This is ä \\textbf{testx}.\nSecond $x$ line\\footnote{Foot text}.\n\nLast\n'
 # second source: the text ends where the file ends (positions behind the last character are critical there)
-TEX2 = 'A ä b.\nLast \\textbf{line}'
+TEX2 = 'A ä b.\nLast \\textbf{line} $x'      # ... and with a LaTeX problem close to the end (split error mark)
 # third source: many short lines, for a long match with a short one nested in it
 TEX3 = ''.join('line%d \\emph{w%d} end\n' % (i, i) for i in range(9))
 MODES = ['plain', 'json', 'xml', 'xml-b', 'html', 'server']
@@ -239,7 +239,7 @@ class C15:
         with open(os.path.join(d, 'f.tex'), 'w', encoding='utf-8') as f:
             f.write(TEX)
         self.dir = d
-        self.sess = shell.Session(['--language', 'en-GB', 'f.tex'], lambda t, c: b'', cwd=d)
+        self.sess = shell.Session(['--language', 'en-GB', '--link', 'f.tex'], lambda t, c: b'', cwd=d)
         with open(os.path.join(d, 'g.tex'), 'w', encoding='utf-8') as f:
             f.write(TEX2)
         self.sess2 = shell.Session(['--language', 'en-GB', 'g.tex'], lambda t, c: b'', cwd=d)
@@ -397,7 +397,7 @@ class C15:
         n = 0
         for mode in ('plain', 'html', 'json'):
             out, err, code, exc = self.run_mode(mode, ans, second)
-            rc, cout, cerr, args = shell.run_cli(['--language', 'en-GB', '--output', mode] + (['--context', '0', 'h.tex'] if second == 3 else ['g.tex' if second else 'f.tex']),
+            rc, cout, cerr, args = shell.run_cli(['--language', 'en-GB', '--output', mode] + (['--context', '0', 'h.tex'] if second == 3 else ['g.tex'] if second else ['--link', 'f.tex']),
                                                  {'f.tex': TEX, 'g.tex': TEX2, 'h.tex': TEX3}, {}, ans, d)
             n += 1
             if exc:
